@@ -472,6 +472,10 @@ class DfltModel(Comp):
                 if kv["F"] != "1":
                     return (None, "a non-presence container's default flag disagrees with its children before validation "
                                   "(lyd_np_cont_dflt_del / _set not applied by an edit)")
+                if kv["N"] != "1" and kv.get("H") == "1":
+                    # the hypothesis of C07_implicit_exact_edited_partial holds for the input: the model itself would
+                    # contradict the theorem (cannot happen) - never a known finding
+                    return (None, "edited input (Implicit.editedb) but the validated tree is not the normal form: " + x)
                 if kv["N"] != "1":
                     why = set(kv["N"].split(":", 1)[1].split(","))
                     t = None
@@ -492,6 +496,15 @@ class DfltModel(Comp):
                             "defines (an explicit leaf-list instance equals one default value): %s" % (x.split(" ")[0], x[:200]))
                 return (None, "with-defaults printing: flags inconsistent or node set differs from RFC 6243 (%s)" % w)
             raw = model_out.split(" | ")
+            if x.startswith("V0") and y.startswith("VE3") and " # " in x:
+                # LY_EINVAL while building the diff: changes of duplicate-instance (leaf-)list instances (addressed by
+                # position) cannot be merged ("Unable to merge operation delete with delete")
+                dnames = self.dupinst_names(line)
+                hit = [d for d in x.split(" # ")[1].split(";")
+                       if any(("/" + sg).split("[")[0].split("=")[0].endswith("/" + nm) for sg in d.split(" ", 1)[-1].split("/") for nm in dnames)]
+                if hit:
+                    return ("vdiff-dupinst", "lyd_validate_all(.., &diff) returns LY_EINVAL: the change set holds changes of "
+                                             "duplicate-instance list instances: %s" % hit[:3])
             if x.startswith("V0") and y.startswith("VE3") and i + 1 < len(raw) and raw[i + 1].startswith("Q ") and \
                     raw[i + 1].split(" S=")[1] != "":
                 return ("vdiff-np-recreate", "lyd_validate_all(.., &diff) returns LY_EINVAL on valid data: a default NP container "
